@@ -1,6 +1,6 @@
 # configuration of ./check C18 (see checklib/props.py)
 PROP = {'facts': ['c18pkg'],
- 'level': 'translation_validation',
+ 'level': 'proof',
  'rule': 'One case per artefact: every directory under /repo that holds a generate.go with a go:generate line (globbed at run time: 32 helper '
          'packages + debug). The go:generate line is parsed like cmd/radius-dict-gen/main.go parses its flags; the dictionary next to it is parsed '
          'with the working tree\'s parser (IgnoreIdenticalAttributes=true) and fed to the working tree\'s dictionarygen.Generator in-process; the '
@@ -9,14 +9,20 @@ PROP = {'facts': ['c18pkg'],
          'part of the repository; the files of the same names checked in under /repo/rfcNNNN/ are substituted, Parse+Merge of generate_main.go is '
          're-run and the resulting *Dictionary is compared element by element with debug.IncludedDictionary. Second reading: the declaration '
          'inventory of each checked-in file (go/parser) must equal Gen.inventory (Lean) of its dictionary.',
- 'level_text': 'Complete enumeration of a finite set (33 artefacts): regenerate from the checked-in dictionary and go:generate options with the '
-               'working tree\'s own generator and compare with the checked-in file up to formatting, comments and literal spelling; plus an '
-               'independent cross-check of each file\'s declaration inventory against the Lean model of the generator.',
- 'level_note': 'Nothing universally quantified, hence no theorem; programs = artefacts compared, disagreements_checked = artefacts that differed '
-               '(each is reported with its first differing declaration). The debug comparison uses the checked-in rfc dictionaries in place '
-               'of the FreeRADIUS system files named on its go:generate line (substitution stated in rule); on this tree they reproduce '
-               'IncludedDictionary exactly (80 attributes, 116 values).',
- 'technique': 'in-process regeneration + go/ast structural diff; Lean model cross-check of the declaration inventory',
+ 'level_text': 'The property quantifies over a finite table (the 32 checked-in helper packages + the debug dictionary). For each helper '
+               'package one Lean theorem, closed by the kernel (`decide +kernel`, no axioms), states that the MODEL generator (Gen.generate '
+               'Cfg.current — the model C17\'s theorems are about) applied to the package\'s dictionary (facts regenerated on every run: the '
+               'dictionary as parsed by the tree\'s parser, the go:generate options) yields exactly the imports and declarations (kind, '
+               'name, parameter and result types, order) found in the checked-in generated.go. Below the inventory — function bodies, '
+               'literal values, the debug dictionary — the check is translation validation: regenerate with the tree\'s own generator '
+               'and compare syntax trees.',
+ 'level_note': 'Proved per package: inventory equality against the Lean model (33 obligations incl. "32 packages present"). NOT '
+               'proved, compared only: function bodies and constant values (the model does not contain template bodies), the debug '
+               'package (Parse+Merge re-run, compared element by element; its go:generate line names FreeRADIUS system files, for '
+               'which the checked-in rfc dictionaries of the same names are substituted — on this tree they reproduce '
+               'IncludedDictionary exactly, 80 attributes, 116 values). The generator\'s output is required to be one text: 12 further '
+               'runs must give the same bytes.',
+ 'technique': 'Lean 4 kernel-checked equality (decide +kernel) of model-generator inventory and checked-in inventory per package, facts regenerated from the tree; in-process regeneration + go/ast structural diff for bodies',
  'trusted': ['go/parser, go/constant; the harness\'s reading of the go:generate line (mirrors cmd/radius-dict-gen/main.go)'],
  'assumptions': ['debug: /usr/share/freeradius/dictionary.rfc2865 ... rfc5176 are taken to be the files of the same names checked in under /repo/rfc2865 ... /repo/rfc5176'],
  'shards': 1,
